@@ -993,3 +993,43 @@ pub fn number_of_variant_name(name: &str) -> Option<u16> {
     name.strip_prefix("Msg").and_then(|n| n.parse().ok())
 }
 
+
+/// string-bearing messages constructed through the typed public API (`From<&str>`, not the deserialiser) from text of
+/// every class: over-long sources, multi-byte characters straddling the capacity, NUL, tokens
+pub fn typed_string_message(rng: &mut Rng, i: u64) -> Message {
+    use rtcm_rs::msg::{Msg1007T, Msg1008T, Msg1029T, Msg1033T};
+    use rtcm_rs::util::{ArrayString, Df88591String};
+    let mut txt = |rng: &mut Rng| -> String {
+        match rng.below(4) {
+            0 => {
+                let cap = [7usize, 31, 40, 255, 400][rng.below(5) as usize];
+                gen_token_text(rng, cap)
+            }
+            1 => {
+                // ASCII run of a length around the capacities followed by multi-byte characters (cut inside a character)
+                let n = [250usize, 251, 252, 253, 254, 255, 256, 28, 29, 30, 31, 126, 127][rng.below(13) as usize];
+                let mut s: String = "a".repeat(n.saturating_sub(rng.below(3) as usize));
+                for _ in 0..(1 + rng.below(4)) {
+                    s.push(char::from_u32([0xE9u32, 0x20AC, 0x4E2D, 0x1F600][rng.below(4) as usize]).unwrap());
+                }
+                s
+            }
+            _ => gen_text(rng.next_u64()),
+        }
+    };
+    let d = |s: &str| Df88591String::<31>::from(s);
+    match i % 4 {
+        0 => Message::Msg1007(Msg1007T { reference_station_id: 5, antenna_descriptor_str: d(&txt(rng)), antenna_setup_id: 1 }),
+        1 => Message::Msg1008(Msg1008T { reference_station_id: 5, antenna_descriptor_str: d(&txt(rng)), antenna_setup_id: 1, antenna_serial_number_str: d(&txt(rng)) }),
+        2 => Message::Msg1033(Msg1033T {
+            reference_station_id: 9,
+            antenna_descriptor_str: d(&txt(rng)),
+            antenna_setup_id: 0,
+            antenna_serial_number_str: d(&txt(rng)),
+            receiver_type_descriptor_str: d(&txt(rng)),
+            receiver_firmware_version_str: d(&txt(rng)),
+            receiver_serial_number_str: d(&txt(rng)),
+        }),
+        _ => Message::Msg1029(Msg1029T { reference_station_id: 1, modified_julian_day_number: 2, seconds_of_day_s: 3, text_str: ArrayString::<255>::from(txt(rng).as_str()) }),
+    }
+}
